@@ -51,7 +51,9 @@ def check_gate(chk, prog, eff, L, label, rule="C19.gate"):
         st = pa.st
         S = None
         for e in pa.events:
-            if e.kind == "load" and P.ptr_key(e.args[0]) == (STACK, size_off):
+            # the stack's size as this call found it: read from the stack itself or from a local copy of its header
+            if e.kind == "load" and (P.ptr_key(e.args[0]) == (STACK, size_off) or
+                                     (isinstance(e.res, tuple) and e.res[0] == "ld" and e.res[1] == STACK and e.res[2] == size_off)):
                 S = e.res
                 break
         mallocs = pa.calls("_cbor_malloc")
@@ -68,7 +70,9 @@ def check_gate(chk, prog, eff, L, label, rule="C19.gate"):
                 refuse_limit.append(("eq", eq))
             else:
                 refuse_limit.append(("range", (lo, hi)))
-            ok = pa.ret == ("c", 0) and not [e for e in pa.events if e.kind == "store"]
+            # (writes to the function's own locals - a working copy of the header - change nothing)
+            ok = pa.ret == ("c", 0) and not [e for e in pa.events if (e.kind == "store" or e.kind in ("memcpy", "memset")) and
+                                             not (isinstance(P.ptr_key(e.args[0])[0], tuple) and P.ptr_key(e.args[0])[0][0] == "alloca")]
             chk.ob(rule, "%s: refusal returns NULL and changes nothing" % label, ok, where, fn=f.name, key="refuse-clean:" + label)
         else:
             proceed.append((pa, S))
@@ -101,7 +105,8 @@ def check_gate(chk, prog, eff, L, label, rule="C19.gate"):
         chk.ob(rule, "%s: no allocation path with size == L" % label, not can_be_L, where, fn=f.name, key="proceed:" + label,
                detail="" if not can_be_L else "a frame can be pushed when the stack already holds %d" % L)
         if pa.ret != ("c", 0):
-            stores = {P.ptr_key(e.args[0]): e.args[1] for e in pa.events if e.kind == "store"}
+            # final contents of the stack header (stored field by field or published from a working copy)
+            stores = {(STACK, size_off): st.load(P.mkptr(STACK, size_off), "i64", None), (STACK, top_off): st.load(P.mkptr(STACK, top_off), "i8*", None)}
             new = pa.ret
             oksz = stores.get((STACK, size_off)) in (("op", "add", "i64", ("c", 1), S), ("op", "add", "i64", S, ("c", 1)))
             oktop = stores.get((STACK, top_off)) == new
